@@ -20,12 +20,13 @@ Notation exec := (exec np wres).
 Notation quiescent := (@quiescent R np).
 Notation poll_bound := (@poll_bound R np).
 Notation fair := (fair np wres).
+Notation no_partial := (@no_partial R np).
 
 (* how far a child process has got *)
 Definition stage (k : wk) : nat :=
   match exitc k with
   | Some _ => 3
-  | None => match pc k with WRun => 0 | WPut => 1 | WDone => 2 end
+  | None => match pc k with WRun | WPutting => 0 | WPut => 1 | WDone => 2 end
   end.
 
 Lemma stage_ended k : 3 <= stage k -> exitc k <> None.
@@ -41,10 +42,10 @@ Proof.
   destruct (exitc (wks w pid)) eqn:He; [lia|].
   destruct (Nat.eq_dec p pid) as [->|Hne].
   - unfold stage at 1. rewrite He.
-    destruct a as [id| | | |c]; destruct (pc (wks w pid)) eqn:Hpc; cbn [wks]; rewrite ?upd_eq;
-      unfold stage; cbn [exitc pc]; rewrite ?He, ?Hpc; try lia.
-  - destruct a as [id| | | |c]; destruct (pc (wks w pid)); cbn [wks]; rewrite ?upd_neq by exact Hne; try lia.
-    destruct (wres pid); cbn [wks]; rewrite ?upd_neq by exact Hne; lia.
+    destruct a as [id| | | | | |c]; destruct (pc (wks w pid)) eqn:Hpc; try destruct (wres pid);
+      cbn [wks]; rewrite ?upd_eq; unfold stage; cbn [exitc pc]; rewrite ?He, ?Hpc; lia.
+  - destruct a as [id| | | | | |c]; destruct (pc (wks w pid)); try destruct (wres pid);
+      cbn [wks]; rewrite ?upd_neq by exact Hne; lia.
 Qed.
 
 Lemma mstep_stage (w : @world R) m w' m' p :
@@ -53,7 +54,7 @@ Proof.
   rewrite mstep_eq.
   destruct (ph m) as [|ae|ae|pid|pid e|].
   - destruct (it m <? np); intro E; inversion E; reflexivity.
-  - destruct (rq w) as [|[q r] rest]; intro E; inversion E; reflexivity.
+  - destruct (rq w) as [|[q r] rest]; [destruct (putting np w)|]; intro E; inversion E; reflexivity.
   - destruct (any_died np w); [discriminate|]. destruct ae; [discriminate|]. intro E; inversion E; reflexivity.
   - destruct ((1 <=? pid) && (pid <=? np)); [|discriminate]. intro E; inversion E; reflexivity.
   - destruct (lq (wks w pid)) as [|[id|] rest].
@@ -99,8 +100,8 @@ Proof.
     pose proof (wstep_stage p APutResult w p) as Hm.
     destruct (Nat.eq_dec (stage (wks w p)) 0) as [H0|]; [|lia].
     rewrite wstep_eq, Hg. unfold stage in H0 |- *.
-    destruct (exitc (wks w p)); [discriminate|]. destruct (pc (wks w p)); try discriminate.
-    rewrite Hw. cbn [wks]. rewrite upd_eq. cbn. lia.
+    destruct (exitc (wks w p)); [discriminate|].
+    destruct (pc (wks w p)); try discriminate; rewrite Hw; cbn [wks]; rewrite upd_eq; cbn; lia.
   - (* APutEnd *)
     pose proof (wstep_stage p APutEnd w p) as Hm.
     destruct (Nat.eq_dec (stage (wks w p)) 1) as [H1|]; [|lia].
@@ -160,22 +161,73 @@ Proof.
     + rewrite exec_Fin in E. discriminate.
 Qed.
 
+(* a worker whose task raises stays in its task loop until it raises or is killed *)
+Lemma raising_stays_running sched : forall p e (w : @world R) m w' m',
+  wres p = Err e -> pc (wks w p) = WRun ->
+  exec sched (Run w m) = Run w' m' -> pc (wks w' p) = WRun.
+Proof.
+  induction sched as [|a s IH]; intros p e w m w' m' Hw Hpc E.
+  - inversion E; subst. exact Hpc.
+  - rewrite exec_cons in E. destruct a as [|q wa]; cbn [M_Parallel.step] in E.
+    + destruct (mstep w m) as [w1 m1|o] eqn:Es; [|rewrite exec_Fin in E; discriminate].
+      apply (IH p e w1 m1 w' m' Hw); [|exact E].
+      revert Es. rewrite mstep_eq.
+      destruct (ph m) as [|ae|ae|pid|pid x|].
+      * destruct (it m <? np); intro E'; inversion E'; subst; exact Hpc.
+      * destruct (rq w) as [|[? ?] ?]; [destruct (putting np w)|]; intro E'; inversion E'; subst; exact Hpc.
+      * destruct (any_died np w); [discriminate|]. destruct ae; [discriminate|]. intro E'; inversion E'; subst; exact Hpc.
+      * destruct ((1 <=? pid) && (pid <=? np)); [|discriminate]. intro E'; inversion E'; subst; exact Hpc.
+      * destruct (lq (wks w pid)) as [|[id|] rest].
+        -- destruct x; [discriminate|]. intro E'; inversion E'; subst; exact Hpc.
+        -- intro E'; inversion E'; subst. fold (popped w pid rest). now rewrite popped_pc.
+        -- intro E'; inversion E'; subst. fold (popped w pid rest). now rewrite popped_pc.
+      * destruct (all_ended np w); [discriminate|]. intro E'; inversion E'; subst; exact Hpc.
+    + apply (IH p e (wstep q wa w) m w' m' Hw); [|exact E].
+      rewrite wstep_eq. destruct ((1 <=? q) && (q <=? np)); [|exact Hpc].
+      destruct (exitc (wks w q)) eqn:He; [exact Hpc|].
+      destruct (Nat.eq_dec p q) as [->|Hne].
+      * rewrite Hpc. destruct wa; try rewrite Hw; cbn [wks]; rewrite ?upd_eq; cbn [pc]; auto.
+      * destruct wa; destruct (pc (wks w q)); try destruct (wres q); cbn [wks]; rewrite ?upd_neq by exact Hne; exact Hpc.
+Qed.
+
+Lemma raised_ends sched p e : forall (w : @world R) m w' m',
+  1 <= p <= np -> wres p = Err e -> In (Worker p ARaise) sched ->
+  pc (wks w p) = WRun ->
+  exec sched (Run w m) = Run w' m' -> 3 <= stage (wks w' p).
+Proof.
+  induction sched as [|a s IH]; intros w m w' m' Hp Hw Hin Hpc E; [contradiction|].
+  rewrite exec_cons in E. destruct Hin as [->|Hin].
+  - cbn [M_Parallel.step] in E.
+    assert (Hs : 3 <= stage (wks (wstep p ARaise w) p)).
+    { rewrite wstep_eq.
+      replace ((1 <=? p) && (p <=? np)) with true
+        by (symmetry; apply andb_true_intro; split; apply Nat.leb_le; lia).
+      unfold stage. destruct (exitc (wks w p)) eqn:He; [rewrite He; lia|].
+      rewrite Hpc, Hw. cbn [wks]. rewrite upd_eq. cbn. lia. }
+    pose proof (exec_stage _ _ _ _ _ p E). lia.
+  - destruct (step a (Run w m)) as [w1 m1|o] eqn:Es.
+    + apply (IH w1 m1 w' m'); auto.
+      apply (raising_stays_running [a] p e w m w1 m1 Hw Hpc). exact Es.
+    + rewrite exec_Fin in E. discriminate.
+Qed.
+
 Lemma fair_quiescent sched (w : @world R) m :
   fair sched -> exec sched (init r0) = Run w m -> quiescent w.
 Proof.
   intros Hf E p Hp. apply stage_ended.
-  destruct (Hf p Hp) as [[[r Hw] Hs]|[c Hin]].
+  destruct (Hf p Hp) as [[[r Hw] Hs]|[[[e Hw] Hin]|[c Hin]]].
   - apply (program_runs _ _ Hs 0 p r _ _ w m Hp Hw eq_refl (Nat.le_0_l _) E).
+  - exact (raised_ends sched p e (mkworld [] (fun _ => fresh)) (mkmst 0 PollA [(0, r0)]) w m Hp Hw Hin eq_refl E).
   - apply (killed_ends sched p c _ _ w m Hp Hin E).
 Qed.
 
 (* every fair schedule followed by poll_bound master steps ends the call *)
 Lemma fair_loud s1 s2 (w : @world R) m :
-  fair s1 -> exec s1 (init r0) = Run w m -> poll_bound w <= n_master s2 ->
+  fair s1 -> exec s1 (init r0) = Run w m -> no_partial w -> poll_bound w <= n_master s2 ->
   exists o, exec (s1 ++ s2) (init r0) = Fin o /\
             (forall r, o = Done r -> complete np wres r0 r).
 Proof.
-  intros Hf E Hb. apply (gather_loud np wres r0 s1 s2 w m E); [|exact Hb].
+  intros Hf E Hnp Hb. apply (gather_loud np wres r0 s1 s2 w m E); [|exact Hnp|exact Hb].
   now apply (fair_quiescent s1 w m).
 Qed.
 
@@ -201,12 +253,13 @@ Lemma parallelize_fair_loud {A R} (f : A -> res R) args ncpu s1 s2 r0 w m :
   exec (Z.to_nat ncpu - 1) (fun pid => mapM f (chunk args (Z.to_nat ncpu) pid)) s1 (init r0)
     = Run w m ->
   fair (Z.to_nat ncpu - 1) (fun pid => mapM f (chunk args (Z.to_nat ncpu) pid)) s1 ->
+  no_partial (Z.to_nat ncpu - 1) w ->
   poll_bound (Z.to_nat ncpu - 1) w <= n_master s2 ->
   exists o, parallelize f args ncpu (s1 ++ s2) = Some o /\
             (forall r, o = Done r -> mapM f args = Ok r).
 Proof.
-  intros Hne Hn H0 H1 Hf Hb.
-  apply (parallelize_loud f args ncpu s1 s2 r0 w m Hne Hn H0 H1); [|exact Hb].
+  intros Hne Hn H0 H1 Hf Hnp Hb.
+  apply (parallelize_loud f args ncpu s1 s2 r0 w m Hne Hn H0 H1); [|exact Hnp|exact Hb].
   exact (fair_quiescent _ _ r0 s1 w m Hf H1).
 Qed.
 
@@ -216,33 +269,33 @@ Qed.
 (* all_procs_ended read after the failed get: a fault-free run raises *)
 Lemma late_flag_refuted :
   fault_free sched_late_flag /\
-  exec_gen 1 wres2 false true true true true sched_late_flag (init [0]) = Fin (Fail MissingResult) /\
+  exec_gen 1 wres2 false true true true true true sched_late_flag (init [0]) = Fin (Fail MissingResult) /\
   exists r, exec 1 wres2 (sched_late_flag ++ repeat Master 8) (init [0]) = Fin (Done r).
 Proof. split; [reflexivity|]. split; [vm_compute; reflexivity|]. eexists. vm_compute. reflexivity. Qed.
 
 (* pid_proc_ended read after the failed log get: a fault-free run raises *)
 Lemma late_log_flag_refuted :
   fault_free sched_late_log_flag /\
-  exec_gen 1 wres2 true true false true true sched_late_log_flag (init [0]) = Fin (Fail LogIncomplete) /\
+  exec_gen 1 wres2 true true false true true true sched_late_log_flag (init [0]) = Fin (Fail LogIncomplete) /\
   exists r, exec 1 wres2 (sched_late_log_flag ++ repeat Master 8) (init [0]) = Fin (Done r).
 Proof. split; [reflexivity|]. split; [vm_compute; reflexivity|]. eexists. vm_compute. reflexivity. Qed.
 
 (* result put in a `finally` block: the call returns a partial list although a task raised *)
 Lemma finally_refuted :
-  exec_gen 1 wres_raise true true true false true sched_finally (init [0]) = Fin (Done [0]) /\
+  exec_gen 1 wres_raise true true true false true true sched_finally (init [0]) = Fin (Done [0]) /\
   exec 1 wres_raise sched_finally (init [0]) = Fin (Fail ChildDied).
 Proof. split; vm_compute; reflexivity. Qed.
 
 (* the worker waits for its status queue at its end: the master never gets past proc.join() *)
 Lemma status_block_refuted n :
   exists w m,
-    exec_gen 1 wres2 true true true true false (sched_status_block ++ repeat Master n) (init [0]) = Run w m /\
+    exec_gen 1 wres2 true true true true false true (sched_status_block ++ repeat Master n) (init [0]) = Run w m /\
     ph m = Join /\ exitc (wks w 1) = None.
 Proof.
   unfold exec_gen. rewrite fold_left_app.
   set (s0 := fold_left _ sched_status_block (init [0])).
-  assert (Hs : step_gen 1 wres2 true true true true false Master s0 = s0) by (vm_compute; reflexivity).
-  assert (Hr : fold_left (fun s a => step_gen 1 wres2 true true true true false a s) (repeat Master n) s0 = s0).
+  assert (Hs : step_gen 1 wres2 true true true true false true Master s0 = s0) by (vm_compute; reflexivity).
+  assert (Hr : fold_left (fun s a => step_gen 1 wres2 true true true true false true a s) (repeat Master n) s0 = s0).
   { induction n as [|n IH]; [reflexivity|]. cbn [repeat fold_left]. rewrite Hs. exact IH. }
   rewrite Hr. eexists; eexists. split; [vm_compute; reflexivity|]. split; vm_compute; reflexivity.
 Qed.
@@ -250,6 +303,56 @@ Qed.
 Lemma status_fixed :
   exec 1 wres2 sched_status_block (init [0]) = Fin (Done [0; 1]).
 Proof. vm_compute. reflexivity. Qed.
+
+Lemma masters_inv {S : Type} (st : S -> action -> S) (P : S -> Prop) :
+  (forall s, P s -> P (st s Master)) ->
+  forall n s, P s -> P (fold_left st (repeat Master n) s).
+Proof.
+  intros Hc n. induction n as [|n IH]; intros s Hs; [exact Hs|].
+  cbn [repeat fold_left]. apply IH. now apply Hc.
+Qed.
+
+(* a task raises after the worker emitted a log record; the worker waits for its log records queue at its
+   end (code before fix cdc2ef8): it never ends and the master polls for ever; with the fix the call raises *)
+Lemma raise_logs_refuted n :
+  exists w m,
+    exec_gen 1 wres_raise true true true true true false (sched_raise_logs ++ repeat Master n) (init [0]) = Run w m /\
+    exitc (wks w 1) = None.
+Proof.
+  unfold exec_gen. rewrite fold_left_app.
+  set (st := fun s a => step_gen 1 wres_raise true true true true true false a s).
+  set (s0 := fold_left st sched_raise_logs (init [0])).
+  set (s1 := st s0 Master). set (s2 := st s1 Master).
+  assert (Hcyc : st s2 Master = s0) by (vm_compute; reflexivity).
+  pose (P := fun s : @sys nat => s = s0 \/ s = s1 \/ s = s2).
+  assert (HP : P (fold_left st (repeat Master n) s0)).
+  { apply (masters_inv st P); [|now left].
+    intros s [->|[->| ->]]; unfold P; [right; left; reflexivity|right; right; reflexivity|left; exact Hcyc]. }
+  destruct HP as [->|[->| ->]]; eexists; eexists; (split; [vm_compute; reflexivity|vm_compute; reflexivity]).
+Qed.
+
+Lemma raise_logs_fixed :
+  exec 1 wres_raise (sched_raise_logs ++ repeat Master 3) (init [0]) = Fin (Fail ChildDied).
+Proof. vm_compute. reflexivity. Qed.
+
+(* OPEN FINDING (not repaired): the worker is killed while its result record is only partly in the pipe; every
+   child has ended, yet the master stays blocked in rqueue.get(block=False) for ever *)
+Lemma midput_refuted n :
+  exists w m,
+    exec 1 wres2 (sched_midput ++ repeat Master n) (init [0]) = Run w m /\
+    exitc (wks w 1) = Some (-9)%Z /\ pc (wks w 1) = WPutting.
+Proof.
+  rewrite exec_app. unfold M_Parallel.exec at 1.
+  set (st := fun s a => step 1 wres2 a s).
+  set (s0 := M_Parallel.exec 1 wres2 sched_midput (init [0])).
+  set (s1 := st s0 Master).
+  assert (Hfix : st s1 Master = s1) by (vm_compute; reflexivity).
+  pose (P := fun s : @sys nat => s = s0 \/ s = s1).
+  assert (HP : P (fold_left st (repeat Master n) s0)).
+  { apply (masters_inv st P); [|now left].
+    intros s [->| ->]; unfold P; [right; reflexivity|right; exact Hfix]. }
+  destruct HP as [->| ->]; eexists; eexists; (split; [vm_compute; reflexivity|split; vm_compute; reflexivity]).
+Qed.
 
 (* ------------------------------------------------------------------------- *)
 (* seeds of the child RandomStateService instances *)
